@@ -198,6 +198,14 @@ class RefConn:
                       string(service) + string(b'password') + boolean(False) +
                       string(pw))
 
+    def auth_password_change(self, user, old, new,
+                             service=b'ssh-connection') -> None:
+        """RFC 4252 section 8: the password form with the change flag set"""
+
+        self.ref.send(byte(MSG_USERAUTH_REQUEST) + string(user) +
+                      string(service) + string(b'password') + boolean(True) +
+                      string(old) + string(new))
+
     def pubkey_sig_data(self, user, service, alg: bytes, blob: bytes,
                         session_id: Optional[bytes] = None) -> bytes:
         sid = self.ref.session_id if session_id is None else session_id
